@@ -50,6 +50,14 @@ def shards(tier):
 
 def run_stmt(key, backend, acc):
   prefix = f"{backend}:struct-behavioral" if key in stmtfam.STRUCT_BEHAVIORAL else f"{backend}:stmt"
+  if key in stmtfam.MAY_REJECT:
+    import pymtl3.dsl.errors as dsl_errors
+    try:
+      t = stmtfam.DESIGNS[key](); t.elaborate()
+    except Exception as ex:
+      if type(ex).__module__ != dsl_errors.__name__: raise
+      acc.count("rejected_by_dsl")
+      return "rejected"
   return trcheck.check_class_ref(key, stmtfam.DESIGNS[key], backend, acc, stmtfam.sequences(), stmtfam.REF[key], sig_prefix=prefix)
 
 
